@@ -14,7 +14,7 @@ func init() {
 	register(&Property{
 		ID:          "C05",
 		Technique:   "static analysis: agreement of record-type tables between writer and the four readers, dominance/path search (CRC validation before a record is returned; repair offset captured before the failing decode), guard implication by truth table (bounded overwrite, size limit before allocation)",
-		Explanation: "Decides shape conditions of the WAL codec and readers: (R1) the record types written anywhere in package wal equal the case labels handled by ReadAll (default = error), Verify handles the same set, ValidSnapshotEntries/Repair handle frozen subsets that always include the CRC record; (R2) every non-CRC record returned by decodeRecord passed the rolling-CRC validation, each reader's CRC case validates against the running CRC unless it is 0 and chains it with updateCRC, the encoder stamps the running CRC after feeding the data, cut chains the new segment with the previous CRC; (R3) the sync policy (same obligations as C03-P3); (R4) index-overwrite on re-read is bounded and loud, the torn-tail zero-fill happens only on EOF at the decoder's last valid offset, Repair truncates at the offset captured before the failing decode and fsyncs; (R5) the record size is bounded before allocation. R4 also: moving to the next segment resets the valid-offset count. R3 also: the hard-state record is written after the entries of the same Save, and the previous state is consulted for the sync decision before saveState replaces it.",
+		Explanation: "Decides shape conditions of the WAL codec and readers: (R1) the record types written anywhere in package wal equal the case labels handled by ReadAll (default = error), Verify handles the same set, ValidSnapshotEntries/Repair handle frozen subsets that always include the CRC record; (R2) every non-CRC record returned by decodeRecord passed the rolling-CRC validation, each reader's CRC case validates against the running CRC unless it is 0 and chains it with updateCRC, the encoder stamps the running CRC after feeding the data, cut chains the new segment with the previous CRC; (R3) the sync policy (same obligations as C03-P3); (R4) index-overwrite on re-read is bounded and loud, the torn-tail zero-fill happens only on EOF at the decoder's last valid offset, Repair truncates at the offset captured before the failing decode and fsyncs; (R5) the record size is bounded before allocation. R4 also: moving to the next segment resets the valid-offset count. R3 also: the hard-state record is written after the entries of the same Save, and the previous state is consulted for the sync decision before saveState replaces it. (R6) a record is forgiven as torn only when one of its own sector chunks is all zero, and a validation failure becomes a short-file error only under isTornEntry.",
 		NotDecided:  "that reopening returns exactly a durable prefix for every truncation offset and zero-fill pattern (needs execution), isTornEntry sector arithmetic, page-writer alignment, bit-flip detection probability of CRC32.",
 		Assumptions: []string{"calls to Panic*/Fatal* do not return", "path conditions are conjunctions of dominating branch conditions"},
 		Run:         runC05,
